@@ -23,6 +23,19 @@ CLAIMED = {
         note="trusts the independent grammar reader, the decompiler and the reference translation in xpverif/; a generator edit that changes future output while shipped files stay untouched is not visible"),
 }
 
+CLAIMED.update({
+    "C03": dict(
+        technique="loop-progress and exit analysis on a statement CFG, raise/assert/next() inventory over the call graph, reaching-definitions for asserts, abstract-interpretation type hazards",
+        category="other",
+        text="Decides, per loop and per raise site: scan-loop progress (fresh snapshot, monotone position writes, incrementing fallback, end-of-line guard), EOF exits of every line-loop mode, no bare next() on the token stream, only SyntaxError/IndentationError/TokenError raised from reachable code, asserts that cannot see None, total lookups, parse() never returning None, absence of attribute/iteration/operand type hazards in actions and helpers. Termination of the PEG recursion itself rests on W3 (C18) and is bounded only by the interpreter stack (known finding D17).",
+        note="callees resolved by method name (over-approximate reachability); regex facts of the progress argument are decided under C08/C09; infeasible-path false alarms are possible in principle for the reaching-definitions rule"),
+    "C18": dict(
+        technique="graph criterion on the decompiled grammar IR (same-position fork detection through unmemoised rules, nullable analysis), structural check of the memo wrappers",
+        category="other",
+        text="Decides a necessary condition for the packrat linearity argument: no unmemoised rule is evaluated twice at one input position inside a cycle of unmemoised rules (each such fork multiplies work per nesting level), cache hits are O(1) and the rule body runs only on a miss, parse() makes at most two passes, every repetition body consumes a token. Thorough adds the diagnostic pass; forks that exist only there are reported as undecided because early raises are not modelled.",
+        note="positions are identified by syntactically equal item prefixes (forks through differently spelled equivalent prefixes are not seen); does not bound the backward scan of get_last_non_whitespace_token"),
+})
+
 NOT_APPLICABLE = {
     "C17": "quantifies over all grammars x all token strings; semantic equivalence of emitted code and a PEG interpreter cannot be decided from the shape of the generator source (DESIGN.md §5)",
 }
